@@ -746,7 +746,37 @@ def r04_18(ctx: Ctx, rule: str = "R04.18") -> None:
               "a packed block", construct="read_fully shape")
 
 
+def r04_20(ctx: Ctx, rule: str = "R04.20") -> None:
+    """the folder CRC is taken over everything the decoder DELIVERS, and 'the whole folder has been delivered' is counted the same way:
+    every normal path through SevenZipDecompressor.decompress passes `self.digest = calculate_crc32(<returned>, self.digest)` and
+    `self._delivered += len(<returned>)` for the very buffer it returns.  Without the first the folder CRC compares with 0 (every
+    archive protected by folder CRCs only is 'damaged', or - with the comparison gone too - none is); without the second is_finished()
+    never answers True and the folder CRC is never looked at."""
+    d = ctx.prog.func("compressor", "SevenZipDecompressor.decompress")
+    cfg = cfg_of(d.node)
+    rets = [r for r in walk(d.node) if isinstance(r, ast.Return) and r.value is not None]
+    ctx.floor(rule, len(rets), 1, "returns of SevenZipDecompressor.decompress")
+    for r in rets:
+        rv = norm(r.value)
+        dig = [n for n in walk(d.node) if isinstance(n, ast.Assign) and norm(n.targets[0]) == "self.digest" and isinstance(n.value, ast.Call) and attr_tail(n.value) == "calculate_crc32"
+               and len(n.value.args) == 2 and norm(n.value.args[0]) == rv and norm(n.value.args[1]) == "self.digest"]
+        cnt = [n for n in walk(d.node) if isinstance(n, ast.AugAssign) and isinstance(n.op, ast.Add) and norm(n.target) == "self._delivered" and norm(n.value) == f"len({rv})"]
+        ok1 = bool(dig) and cfg.every_path_to_exit_passes(cfg.entry, [q.node_for(d, n) for n in dig])
+        ok2 = bool(cnt) and cfg.every_path_to_exit_passes(cfg.entry, [q.node_for(d, n) for n in cnt])
+        # the buffer is not changed between the accounting and the return
+        later = [n for n in walk(d.node) if isinstance(n, (ast.Assign, ast.AugAssign)) and any(norm(t) == rv for t in (n.targets if isinstance(n, ast.Assign) else [n.target]))
+                 and any(cfg.reaches(q.node_for(d, a_), q.node_for(d, n)) for a_ in dig + cnt)]
+        ctx.check(ok1 and not later, rule, d, r, "the folder digest covers every delivered byte",
+                  f"some path through SevenZipDecompressor.decompress returns `{rv}` without `self.digest = calculate_crc32({rv}, self.digest)` (or changes the buffer afterwards): the folder "
+                  "CRC is compared with a digest that does not cover what was delivered - damage in a folder protected by its folder CRC only goes unnoticed, or every such archive is refused",
+                  construct="folder digest accounting")
+        ctx.check(ok2 and not later, rule, d, r, "the delivered-byte count covers every delivered byte",
+                  f"some path through SevenZipDecompressor.decompress returns `{rv}` without `self._delivered += len({rv})`: is_finished() never (or too early) answers True and the folder CRC is "
+                  "never (or prematurely) compared", construct="delivered count accounting")
+
+
 def run(ctx: Ctx) -> None:
+    r04_20(ctx)
     r04_18(ctx)
     r04_17(ctx)
     r04_16(ctx)
